@@ -5,8 +5,8 @@ the kept groups are input groups; a kept group's entry k-mer is never the entry,
 or a reverse complement of those of a group kept before it (so a bubble and its
 reverse-strand twin, or two groups opening at the same k-mer, are never both reported);
 every dropped group is explained by such a clash; the recorded extremities are exactly
-those of the kept groups; and on tie-free inputs the result does not depend on the
-(hash-map) order in which the groups arrive.
+those of the kept groups; and the result does not depend on the (hash-map) order in
+which the groups arrive.
 -/
 import SkaModel.Impl.SkaloDerep
 
@@ -87,16 +87,12 @@ theorem derepLe_total (a b : IndelGroup) : (derepLe a b || derepLe b a) = true :
   omega
 
 theorem derepLe_antisymm (a b : IndelGroup) :
-    derepLe a b = true → derepLe b a = true → a.len = b.len ∧ a.entry = b.entry := by
-  simp only [derepLe, Bool.or_eq_true, decide_eq_true_eq, Bool.and_eq_true, beq_iff_eq]
+    derepLe a b = true → derepLe b a = true → a = b := by
+  cases a; cases b
+  simp only [derepLe, Bool.or_eq_true, decide_eq_true_eq, Bool.and_eq_true, beq_iff_eq, IndelGroup.mk.injEq]
   omega
 
 end Derep
-
-/-- no two groups with the same total length open at the same k-mer: the only case in which
-the Rust's order (hash-map iteration followed by a stable sort) is not determined -/
-def TieFree (gs : List IndelGroup) : Prop :=
-  ∀ a ∈ gs, ∀ b ∈ gs, a.len = b.len → a.entry = b.entry → a = b
 
 /-- **T18_derep** -/
 theorem T18_derep (W k : Nat) (gs : List IndelGroup) :
@@ -140,37 +136,32 @@ theorem T18_derep_twin (W k : Nat) (gs : List IndelGroup) (a b : IndelGroup)
   · exact h (by simp [extremities, h1])
   · exact h (by simp [extremities, h2])
 
-/-- order independence on tie-free inputs: any two arrival orders of the same groups give the
-same kept list and the same extremities -/
-theorem T18_derep_order (W k : Nat) (gs gs' : List IndelGroup) (hperm : gs.Perm gs')
-    (htf : TieFree gs) : dereplicate W k gs = dereplicate W k gs' := by
+/-- order independence: any two arrival orders (hash-map iteration orders) of the same groups give
+the same kept list and the same extremities -/
+theorem T18_derep_order (W k : Nat) (gs gs' : List IndelGroup) (hperm : gs.Perm gs') :
+    dereplicate W k gs = dereplicate W k gs' := by
   have hs : gs.mergeSort derepLe = gs'.mergeSort derepLe := by
     apply List.Perm.eq_of_pairwise (le := fun a b => derepLe a b = true)
-    · intro a b ha hb hab hba
-      obtain ⟨hl, he⟩ := Derep.derepLe_antisymm a b hab hba
-      have ha' : a ∈ gs := (List.mergeSort_perm gs derepLe).mem_iff.mp ha
-      have hb' : b ∈ gs := hperm.mem_iff.mpr ((List.mergeSort_perm gs' derepLe).mem_iff.mp hb)
-      exact htf a ha' b hb' hl he
+    · intro a b _ _ hab hba
+      exact Derep.derepLe_antisymm a b hab hba
     · exact List.pairwise_mergeSort Derep.derepLe_trans Derep.derepLe_total gs
     · exact List.pairwise_mergeSort Derep.derepLe_trans Derep.derepLe_total gs'
     · exact (List.mergeSort_perm gs derepLe).trans (hperm.trans (List.mergeSort_perm gs' derepLe).symm)
   simp [dereplicate, hs]
 
-/-- the tie hypothesis is needed: with a tie the arrival order decides which group is kept
-(the run-to-run difference the correspondence check observes on the Rust function) -/
-theorem T18_derep_tie_witness :
-    dereplicate 128 5 [⟨10, 20, 12⟩, ⟨10, 40, 12⟩] ≠ dereplicate 128 5 [⟨10, 40, 12⟩, ⟨10, 20, 12⟩] := by
-  have h1 : ([⟨10, 20, 12⟩, ⟨10, 40, 12⟩] : List IndelGroup).mergeSort derepLe = [⟨10, 20, 12⟩, ⟨10, 40, 12⟩] :=
-    List.mergeSort_of_pairwise (by decide)
-  have h2 : ([⟨10, 40, 12⟩, ⟨10, 20, 12⟩] : List IndelGroup).mergeSort derepLe = [⟨10, 40, 12⟩, ⟨10, 20, 12⟩] :=
-    List.mergeSort_of_pairwise (by decide)
-  unfold dereplicate
-  rw [h1, h2]
-  decide
-
 /-- non-vacuity: a concrete input on which a group is dropped and two are kept -/
 example : (dereplicate 128 5 [⟨30, 40, 11⟩, ⟨10, 20, 12⟩, ⟨10, 50, 13⟩]).1 = [⟨30, 40, 11⟩, ⟨10, 20, 12⟩] := by
   have h1 : ([⟨30, 40, 11⟩, ⟨10, 20, 12⟩, ⟨10, 50, 13⟩] : List IndelGroup).mergeSort derepLe = _ :=
+    List.mergeSort_of_pairwise (by decide)
+  unfold dereplicate
+  rw [h1]
+  decide
+
+/-- two groups of equal length opening at the same k-mer: the one with the smaller exit k-mer is kept,
+in whichever order they arrive -/
+example : (dereplicate 128 5 [⟨10, 40, 12⟩, ⟨10, 20, 12⟩]).1 = [⟨10, 20, 12⟩] := by
+  rw [T18_derep_order 128 5 _ [⟨10, 20, 12⟩, ⟨10, 40, 12⟩] (List.Perm.swap _ _ _)]
+  have h1 : ([⟨10, 20, 12⟩, ⟨10, 40, 12⟩] : List IndelGroup).mergeSort derepLe = _ :=
     List.mergeSort_of_pairwise (by decide)
   unfold dereplicate
   rw [h1]
